@@ -8,6 +8,7 @@ references" (Hts.Lemmas.BamWF).
 import Hts.Lemmas.BamStream
 import Hts.Lemmas.BamSpec
 import Hts.Lemmas.BamReadSpec
+import Hts.Lemmas.BamTotal
 namespace Hts.Props.C05
 open Hts.Model.Bam
 
@@ -62,9 +63,9 @@ theorem omit_all {n : Nat} {r : Record} (h : WF n r) :
 
 /-- The bytes written are `Spec.layout` (SAMv1 §4.2, written independently) of the record's semantic reading `view`
 (CIGAR as (length, op), one 4-bit code per base, typed aux values), the bin field being the value the writer computed
-(its correctness is C16). `padOK`: the unused nibble of an odd-length sequence is zero, as `sam.NewSeq` makes it. -/
+(its agreement with reg2bin is C16). `padOK`: the unused nibble of an odd-length sequence is zero, as `sam.NewSeq` makes it. -/
 theorem encode_is_spec {n : Nat} {r : Record} (h : WF n r) (hp : padOK r.seqLen r.seq = true) :
-    ∃ bin a, recordBin r = .ok bin ∧ view bin r = some a ∧ encodeRecord r = .ok (Hts.Spec.Bam.layout a) :=
+    ∃ bin a, recordBin r = bin ∧ view bin r = some a ∧ encodeRecord r = .ok (Hts.Spec.Bam.layout a) :=
   encodeRecord_is_layout h hp
 
 /-- "ignoring only the bin field": for ANY value `b` of the bin field, the written bytes agree with the
@@ -158,6 +159,14 @@ theorem fuel_unreachable (om : Omit) (n : Nat) (s : List Byte) :
     (readAll om n s).2 ≠ some .fuel ∧ readRecord om n s ≠ .fault .fuel ∧ parseAux s ≠ .error .fuel :=
   ⟨readAll_ne_fuel om n s, readRecord_ne_fuel om n s, parseAux_ne_fuel s⟩
 
+/-- the reader is total on ARBITRARY bytes: whatever the stream, every `Read` ends in a record, `io.EOF` or a Go
+`error` — never in a panic (the model's only panic outcome is the writer's) and never by exhausting the model's fuel;
+`readAll` stops after finitely many records. -/
+theorem read_never_panics (om : Omit) (n : Nat) (s : List Byte) :
+    (readAll om n s).2 ≠ some .panicAuxType ∧ readRecord om n s ≠ .fault .panicAuxType ∧
+      parseAux s ≠ .error .panicAuxType :=
+  ⟨readAll_ne_panic om n s, readRecord_ne_panic om n s, parseAux_ne_panic s⟩
+
 /-! ### non-vacuity: a concrete non-trivial record is well-formed, and what the theorems say about it -/
 
 /-- name "r1", on reference 0 at 100, mate on reference 1, 3M1I, 5 bases (odd), qualities absent, aux fields
@@ -173,7 +182,7 @@ def sample : Record :=
 example : WF 2 sample :=
   { nrefs_ok := by decide, name_len := by decide, name_nonul := by decide, ref_ok := by simp [sample],
     mate_ok := by simp [sample], pos_ok := by decide, matePos_ok := by decide, tempLen_ok := by decide,
-    cigar_count := by decide, cigar_ops := by simp [sample, cigarType], seq_len := by decide,
+    cigar_count := by decide, seq_len := by decide,
     qual_len := by simp [sample],
     aux_ok := by
       simp only [sample, List.mem_cons, List.not_mem_nil, or_false, forall_eq_or_imp, forall_eq]
@@ -202,11 +211,16 @@ example : sampleAln.Valid 2 :=
       · simp [Hts.Spec.Bam.AuxValue.Valid, Hts.Spec.Bam.Elem.inRange, Hts.Spec.Bam.Elem.signed, Hts.Spec.Bam.Elem.width],
     size := by decide +kernel }
 
-/-- what the model says the code does on inputs outside `WF` (checked against the implementation by the harness):
-a CIGAR op code 11 makes the writer panic (defect #8), a `B` array with sub-type `Z` and count 8 never terminates,
-a `B` header cut short panics (defect #13) -/
-example : encodeRecord { sample with cigar := [0x3b#32] } = .error .panicConsume := by rfl
-example : parseAux [88#8, 89#8, 66#8, 90#8, 8#8, 0#8, 0#8, 0#8] = .error .hangAuxArray := by rfl
-example : parseAux [88#8, 89#8, 66#8] = .error .panicAuxArray := by rfl
+/-- what the model says the code (as repaired) does on inputs outside the specification, each checked against the
+implementation by the harness: CIGAR op code 11 is written and read back like any other; a `B` array with an
+unknown element type, a `B` header cut short, a fixed-width value cut short and a NUL inside a tag are errors;
+a record body shorter than its fields is `io.ErrUnexpectedEOF`. -/
+example : (encodeRecord { sample with cigar := [0x3b#32] }).toOption.map
+    (fun bs => readAll .none 2 bs) = some ([norm { sample with cigar := [0x3b#32] }], none) := by decide +kernel
+example : parseAux [88#8, 89#8, 66#8, 90#8, 8#8, 0#8, 0#8, 0#8] = .error .errAuxArrayElem := by rfl
+example : parseAux [88#8, 89#8, 66#8] = .error .errAuxArrayHdr := by rfl
+example : parseAux [88#8, 89#8, 105#8, 1#8, 2#8] = .error .errAuxTruncated := by rfl
+example : parseAux [88#8, 0#8, 90#8, 65#8, 0#8] = .error .errAuxZeroInTag := by rfl
+example : decodeBody .none 2 (List.replicate 20 1#8) = .error .errUnexpectedEOF := by rfl
 
 end Hts.Props.C05
